@@ -101,7 +101,7 @@ def run(ctx):
               'harness/c11.py: graph builder, pre-order index serialisation, recursive reference oracle',
               'props/C11.py: Coq encoding of the observed cases')
     ok, log = ctx.build_props()
-    rc, data, out = ctx.run_harness_json('c11.py', timeout=1500)
+    rc, data, out = ctx.run_harness_json('c11.py', payload={'mode': 'run'}, timeout=1500)   # a payload so that stdin is a pipe
     if data is None:
         ctx.oblige('harness c11.py ran', False, out[-3000:])
         return
